@@ -1523,3 +1523,35 @@ def rule_roundtrip(ctx) -> RuleResult:
     if n == 0:
         raise AnalysisError("groupby_reduce: no cast of the result back to a saved input dtype found (anchor)")
     return res
+
+
+# ---------------------------------------------------------------------------------------------
+# R-FILLWIDEN (C05, C11): every path through the dtype normaliser considers widening for the fill value.
+# xrdtypes._normalize_dtype ends with `if fill_value not in [None, INF, NINF, NA]: dtype = np.result_type(dtype, fill_value)`: that is what
+# makes an integer max/min/first result float when the user asks for a NaN fill.  A path that returns before that test (an early return for
+# dtype-preserving reductions, say) lets _finalize_results write NaN into the slot and then cast it back to the integer dtype.
+def rule_fillwiden(ctx) -> RuleResult:
+    res = RuleResult("R-FILLWIDEN", "every path through _normalize_dtype passes the fill-value widening test", min_instances=1)
+    from ..cfg import CFG
+    f = ctx.prog.func("xrdtypes._normalize_dtype")
+    if "fill_value" not in f.params:
+        raise AnalysisError("xrdtypes._normalize_dtype lost its fill_value parameter (anchor)")
+    cfg = CFG(f)
+    widen_tests = [n for n in cfg.nodes if n.kind == "test" and n.ast is not None and "fill_value" in names_in(n.ast)]
+    widen_calls = [c for c in calls_in(f.node) if norm(c.func) in ("np.result_type", "np.promote_types") and "fill_value" in names_in(c)]
+    if not widen_tests or not widen_calls:
+        res.inst("_normalize_dtype: no fill-value widening found", "widen")
+        res.report("xrdtypes._normalize_dtype|no-fill-widening", f.where(), f.qualname,
+                   "the dtype normaliser no longer widens the dtype for the user's fill value (np.result_type(dtype, fill_value)): a NaN fill is cast into integer results")
+        return res
+    dom = cfg.dominators()
+    tids = {n.id for n in widen_tests}
+    rets = [n for n in cfg.nodes if n.kind == "return"]
+    for r in rets:
+        ok = bool(tids & dom.get(r.id, set()))
+        res.inst(f"_normalize_dtype: 'return {norm(r.ast.value) if r.ast is not None and r.ast.value is not None else ''}' (line {getattr(r.ast, 'lineno', '?')}) after the fill-value test: {ok}", f"ret|{getattr(r.ast, 'lineno', 0)}")
+        if not ok:
+            res.report(f"xrdtypes._normalize_dtype|return-before-fill-widening|{getattr(r.ast, 'lineno', 0)}", f.where(r.ast), f.qualname,
+                       f"'{norm(r.ast)[:50]}' returns before the fill value has been considered: on this path an integer result is not widened for a NaN / fractional / "
+                       "out-of-range fill_value, which _finalize_results then writes and casts back (NaN becomes int64.min)")
+    return res
